@@ -17,7 +17,7 @@
    all structured rules (reductions, gathers, contractions, linalg, fft). *)
 From Coq Require Import Reals List Ring.
 From Coquelicot Require Import Coquelicot.
-From AG Require Import RealPrelude ScalarRules VSpace VSpaceProof Broadcast MatMul Select.
+From AG Require Import RealPrelude ScalarRules VSpace VSpaceProof Broadcast MatMul Select Stats StatsProof.
 From AGGen Require Import GenRules.
 Local Open Scope R_scope.
 
@@ -122,3 +122,33 @@ Theorem C01_selection_rule_is_adjoint :
       /\ length (Select.sgather K k0 kmul sel v) = length sel.
 Proof. exact Select.selection_rule_adjoint. Qed.
 Print Assumptions C01_selection_rule_is_adjoint.
+
+(* reductions with a non-linear rule, on one fibre (any length): np.var (any ddof with N - ddof <> 0), np.std (positive
+   variance), np.prod (non-zero entries): the registered reverse rule paired with any direction v is g times the
+   derivative of t |-> f(x + t v) at 0; np.cumsum: reverse-cumsum-reverse is the adjoint, over any commutative ring *)
+Theorem C01_var_std_prod_rules_exact :
+  (forall x v d g, length x = length v -> x <> nil -> StatsProof.rdenom d x <> 0 ->
+     is_derive (fun t => StatsProof.rvar d (StatsProof.line x v t)) 0 (StatsProof.rvar_jvp d x v)
+     /\ StatsProof.rdot (StatsProof.rvar_vjp d x g) v = g * StatsProof.rvar_jvp d x v)
+  /\ (forall x v d g, length x = length v -> x <> nil -> StatsProof.rdenom d x <> 0 -> 0 < StatsProof.rvar d x ->
+     is_derive (fun t => sqrt (StatsProof.rvar d (StatsProof.line x v t))) 0 (StatsProof.rstd_jvp d x v (sqrt (StatsProof.rvar d x)))
+     /\ StatsProof.rdot (StatsProof.rstd_vjp d x (sqrt (StatsProof.rvar d x)) g) v = g * StatsProof.rstd_jvp d x v (sqrt (StatsProof.rvar d x)))
+  /\ (forall x v g, length x = length v -> List.Forall (fun a => a <> 0) x ->
+     is_derive (fun t => StatsProof.rprod (StatsProof.line x v t)) 0 (StatsProof.rprod_jvp x v (StatsProof.rprod x))
+     /\ StatsProof.rdot (StatsProof.rprod_vjp x (StatsProof.rprod x) g) v = g * StatsProof.rprod_jvp x v (StatsProof.rprod x)).
+Proof.
+  split; [|split].
+  - intros x v d g H Hx Hd. split; [exact (StatsProof.var_jvp_exact x v d H Hx Hd) | exact (StatsProof.var_vjp_exact x v d g H Hx Hd)].
+  - intros x v d g H Hx Hd Hp. split; [exact (StatsProof.std_jvp_exact x v d H Hx Hd Hp) | exact (StatsProof.std_vjp_exact x v d g H Hx Hd Hp)].
+  - intros x v g H Hn. split; [exact (StatsProof.prod_jvp_exact x v H Hn) | exact (StatsProof.prod_vjp_exact x v g H Hn)].
+Qed.
+Print Assumptions C01_var_std_prod_rules_exact.
+
+Theorem C01_cumsum_rule_is_adjoint :
+  forall (K : Type) (k0 k1 : K) (kadd kmul ksub : K -> K -> K) (kopp : K -> K),
+    ring_theory k0 k1 kadd kmul ksub kopp eq ->
+    forall g v, length g = length v ->
+      Stats.kdot K k0 kadd kmul g (Stats.cumsum K k0 kadd v) = Stats.kdot K k0 kadd kmul (Stats.cumsum_vjp K k0 kadd g) v
+      /\ length (Stats.cumsum_vjp K k0 kadd g) = length g.
+Proof. exact StatsProof.cumsum_adjoint. Qed.
+Print Assumptions C01_cumsum_rule_is_adjoint.
